@@ -5,10 +5,13 @@
 use vstd::prelude::*;
 verus! {
 
-//@file SL = identity_credential/src/revocation/status_list_2021/status_list.rs
-//@file CR = identity_credential/src/revocation/status_list_2021/credential.rs
 
-//@include ../_prelude/std.vrs
+// ---- shared std prelude (assumed specifications of core/alloc items vstd does not cover) ----
+/// Rust's `?` converts the error with `From::from`; vstd leaves `spec_from` uninterpreted.
+pub broadcast proof fn axiom_question_mark_uses_from<F: From<E>, E>(e: E, r: F)
+  ensures #[trigger] vstd::std_specs::control_flow::spec_from::<F, E>(e, r) ==> call_ensures(<F as From<E>>::from, (e,), r)
+{ admit(); }
+
 pub assume_specification<T>[ bool::then_some ](b: bool, t: T) -> (r: Option<T>)
   ensures r == (if b { Some(t) } else { None::<T> });
 
@@ -39,9 +42,13 @@ use vstd::prelude::*;
 use super::lem::*;
 broadcast use {lemma_or_b, lemma_and_b, lemma_zero_b};
 
-//@item SL :: const MINIMUM_LIST_SIZE
-//@item SL :: enum StatusListError
-//@item SL :: struct StatusList2021
+const MINIMUM_LIST_SIZE: usize = 16 * 1024 * 8;
+pub enum StatusListError {
+  IndexOutOfBounds,
+  InvalidEncoding(String),
+  InvalidListSize,
+}
+pub struct StatusList2021(Box<[u8]>);
 
 impl StatusList2021 {
   pub closed spec fn view(&self) -> Seq<u8> { self.0@ }
@@ -52,41 +59,65 @@ impl StatusList2021 {
   /// representation assumption: the byte store is small enough for `len()` not to overflow
   pub open spec fn fits(&self) -> bool { self@.len() * 8 <= usize::MAX }
 
-  //@fn SL :: impl StatusList2021 :: new | ret=r | props=C12,C05
+  pub fn new(num_entries: usize) -> (r: Result<Self, StatusListError>)
     ensures
       num_entries < 131072 ==> r == Err::<StatusList2021, StatusListError>(StatusListError::InvalidListSize),
       num_entries >= 131072 ==> r is Ok
         && r->Ok_0.nbits() >= num_entries && r->Ok_0.nbits() < num_entries + 8 && r->Ok_0.nbits() % 8 == 0
         && (forall|j: int| 0 <= j < r->Ok_0.nbits() ==> !ent(r->Ok_0@, j)),
-  //@end
+  {
+    if num_entries < MINIMUM_LIST_SIZE {
+      return Err(StatusListError::InvalidListSize);
+    }
 
-  //@fn SL :: impl StatusList2021 :: len | ret=r | props=C12,C05
+    let size = num_entries / 8 + (num_entries % 8 != 0) as usize;
+    let store = vec![0; size];
+
+    Ok(StatusList2021(store.into_boxed_slice()))
+  }
+
+  pub const fn len(&self) -> (r: usize)
     requires self.fits(),
     ensures r == self.nbits(),
-  //@end
+  {
+    self.0.len() * 8
+  }
 
-  //@fn SL :: impl StatusList2021 :: get_unchecked | ret=r | props=C12,C05
+  const fn get_unchecked(&self, index: usize) -> (r: bool)
     requires index < self.nbits(),
     ensures r == ent(self@, index as int),
-  //@end
+  {
+    let (i, offset) = Self::entry_index_to_store_index(index);
+    self.0[i] & (0b1000_0000 >> offset) != 0
+  }
 
-  //@fn SL :: impl StatusList2021 :: set_unchecked | props=C12,C05
+  fn set_unchecked(&mut self, index: usize, value: bool)
     requires index < old(self).nbits(),
     ensures
       final(self)@.len() == old(self)@.len(),
       ent(final(self)@, index as int) == value,
       forall|j: int| 0 <= j < old(self).nbits() && j != index ==> ent(final(self)@, j) == ent(old(self)@, j),
-  //@end
+  {
+    let (i, offset) = Self::entry_index_to_store_index(index);
+    if value {
+      self.0[i] |= 0b1000_0000 >> offset
+    } else {
+      self.0[i] &= !(0b1000_0000 >> offset)
+    }
+  }
 
-  //@fn SL :: impl StatusList2021 :: get | ret=r | props=C12,C05
+  pub fn get(&self, index: usize) -> (r: Result<bool, StatusListError>)
     requires self.fits(),
     ensures
       index < self.nbits() ==> r == Ok::<bool, StatusListError>(ent(self@, index as int)),
       index >= self.nbits() ==> r == Err::<bool, StatusListError>(StatusListError::IndexOutOfBounds),
-    //@closure? 1: || -> (x: bool) requires index < self.nbits() ensures x == ent(self@, index as int)
-  //@end
+  {
+    (index < self.len())
+      .then(|| -> (x: bool) requires index < self.nbits() ensures x == ent(self@, index as int) { self.get_unchecked(index) })
+      .ok_or(StatusListError::IndexOutOfBounds)
+  }
 
-  //@fn SL :: impl StatusList2021 :: set | ret=r | props=C12,C05
+  pub fn set(&mut self, index: usize, value: bool) -> (r: Result<(), StatusListError>)
     requires old(self).fits(),
     ensures
       final(self)@.len() == old(self)@.len(),
@@ -95,11 +126,20 @@ impl StatusList2021 {
         && (forall|j: int| 0 <= j < old(self).nbits() && j != index ==> ent(final(self)@, j) == ent(old(self)@, j)),
       index >= old(self).nbits() ==> r == Err::<(), StatusListError>(StatusListError::IndexOutOfBounds)
         && final(self)@ == old(self)@,
-  //@end
+  {
+    if index < self.len() {
+      self.set_unchecked(index, value);
+      Ok(())
+    } else {
+      Err(StatusListError::IndexOutOfBounds)
+    }
+  }
 
-  //@fn SL :: impl StatusList2021 :: entry_index_to_store_index | ret=r | props=C12,C05
+  const fn entry_index_to_store_index(index: usize) -> (r: (usize, usize))
     ensures r.0 == index / 8, r.1 == index % 8,
-  //@end
+  {
+    (index / 8, index % 8)
+  }
 
   // ---- codec boundary (gzip + base64): NOT verified, assumed to be a partial inverse pair ----
   #[verifier::external_body]
@@ -130,12 +170,38 @@ broadcast use {axiom_dec_enc, super::axiom_question_mark_uses_from};
 #[verifier::external_body] pub struct Credential { _p: () }
 #[verifier::external_body] pub struct Url { _p: () }
 
-//@item CR :: enum StatusList2021CredentialError
-//@item CR :: struct StatusList2021Credential | pubfields
-//@item CR :: struct MutStatusList | pubfields
-//@item CR :: enum CredentialStatus | attrs=#[derive(Clone, Copy, PartialEq, Eq)]
-//@item CR :: enum StatusPurpose | attrs=#[derive(Clone, Copy, PartialEq, Eq)]
-//@item CR :: struct StatusList2021CredentialSubject | pubfields
+pub enum StatusList2021CredentialError {
+  MultipleCredentialSubject,
+  InvalidProperty(&'static str),
+  MissingProperty(&'static str),
+  StatusListError( StatusListError),
+  Unreferenceable,
+  UnreversibleRevocation,
+}
+pub struct StatusList2021Credential {
+  pub inner: Credential,
+  pub subject: StatusList2021CredentialSubject,
+}
+pub struct MutStatusList {
+  pub status_list: StatusList2021,
+  pub purpose: StatusPurpose,
+}
+#[derive(Clone, Copy, PartialEq, Eq)]
+pub enum CredentialStatus {
+  Revoked,
+  Suspended,
+  Valid,
+}
+#[derive(Clone, Copy, PartialEq, Eq)]
+pub enum StatusPurpose {
+  Revocation,
+  Suspension,
+}
+pub struct StatusList2021CredentialSubject {
+  pub status_purpose: StatusPurpose,
+  pub encoded_list: String,
+  pub id: Option<Url>,
+}
 
 impl vstd::std_specs::cmp::PartialEqSpecImpl for StatusPurpose {
   open spec fn obeys_eq_spec() -> bool { true }
@@ -155,7 +221,7 @@ impl From<StatusListError> for StatusList2021CredentialError {
 /// the decoded abstract list of a credential (None if the stored string does not decode)
 pub open spec fn cred_bytes(c: &StatusList2021Credential) -> Option<Seq<u8>> { dec(c.subject.encoded_list@) }
 impl MutStatusList {
-  //@fn CR :: impl MutStatusList :: set_entry | ret=r | props=C12,C05
+  pub fn set_entry(&mut self, index: usize, value: bool) -> (r: Result<(), StatusList2021CredentialError>)
     requires old(self).status_list.fits(),
     ensures
       final(self).purpose == old(self).purpose,
@@ -173,21 +239,32 @@ impl MutStatusList {
         ==> r is Ok && ent(final(self).status_list@, index as int) == value
             && (forall|j: int| 0 <= j < old(self).status_list.nbits() && j != index
                   ==> ent(final(self).status_list@, j) == ent(old(self).status_list@, j)),
-  //@end
+  {
+    let entry_status = self.status_list.get(index)?;
+    if self.purpose == StatusPurpose::Revocation && !value && entry_status {
+      return Err(StatusList2021CredentialError::UnreversibleRevocation);
+    }
+    self.status_list.set(index, value)?;
+    Ok(())
+  }
 }
 
 impl StatusList2021Credential {
-  //@fn CR :: impl StatusList2021Credential :: purpose | ret=r | props=C12
+  pub fn purpose(&self) -> (r: StatusPurpose)
     ensures r == self.subject.status_purpose,
-  //@end
+  {
+    self.subject.status_purpose
+  }
 
-  //@fn CR :: impl StatusList2021Credential :: status_list | ret=r | props=C12,C05
+  fn status_list(&self) -> (r: Result<StatusList2021, StatusListError>)
     ensures
       r is Ok <==> cred_bytes(self) is Some,
       r is Ok ==> r->Ok_0@ == cred_bytes(self)->Some_0 && r->Ok_0.fits(),
-  //@end
+  {
+    StatusList2021::try_from_encoded_str(&self.subject.encoded_list)
+  }
 
-  //@fn CR :: impl StatusList2021Credential :: set_entry | ret=r | props=C12,C05
+  pub(crate) fn set_entry(&mut self, index: usize, value: bool) -> (r: Result<(), StatusList2021CredentialError>)
     ensures
       final(self).subject.status_purpose == old(self).subject.status_purpose,
       cred_bytes(old(self)) is None ==> r is Err,
@@ -206,9 +283,19 @@ impl StatusList2021Credential {
                 &&& forall|j: int| 0 <= j < n && j != index ==> ent(b2, j) == ent(b, j)
               }
       },
-  //@end
+  {
+    let mut status_list = self.status_list()?;
+    let entry_status = status_list.get(index)?;
+    if self.purpose() == StatusPurpose::Revocation && !value && entry_status {
+      return Err(StatusList2021CredentialError::UnreversibleRevocation);
+    }
+    status_list.set(index, value)?;
+    self.subject.encoded_list = status_list.into_encoded_str();
 
-  //@fn CR :: impl StatusList2021Credential :: entry | ret=r | props=C12,C05
+    Ok(())
+  }
+
+  pub fn entry(&self, index: usize) -> (r: Result<CredentialStatus, StatusList2021CredentialError>)
     ensures
       cred_bytes(self) is None ==> r is Err,
       cred_bytes(self) is Some ==> {
@@ -219,9 +306,17 @@ impl StatusList2021Credential {
               else if self.subject.status_purpose == StatusPurpose::Revocation { CredentialStatus::Revoked }
               else { CredentialStatus::Suspended })
       },
-  //@end
+  {
+    let status_list = self.status_list()?;
+    Ok(match (self.purpose(), status_list.get(index)?) {
+      (StatusPurpose::Revocation, true) => CredentialStatus::Revoked,
+      (StatusPurpose::Suspension, true) => CredentialStatus::Suspended,
+      _ => CredentialStatus::Valid,
+    })
+  }
 }
 } // mod credential
 
 } // verus!
 fn main() {}
+
